@@ -58,6 +58,20 @@ func NewPipe(t *Tran, name string) *Pipe {
 		Opts: map[string]interface{}{mangos.OptionLocalAddr: "vt-local:" + name, mangos.OptionRemoteAddr: "vt-remote:" + name}}
 }
 
+// RawErrors: a write on a connection that has gone reports the operating system's error (ErrReset) instead of
+// mangos.ErrClosed - what the stream transports really do. Chosen per path by ChooseErrors.
+var RawErrors bool
+
+// ChooseErrors makes the kind of error reported for writes on lost connections a decision of the path.
+func ChooseErrors() { RawErrors = verif.Choice("lost-connection-error-kind", 2) == 1 }
+
+func (p *Pipe) goneErr() error {
+	if RawErrors {
+		return ErrReset
+	}
+	return mangos.ErrClosed
+}
+
 func (p *Pipe) Send(m *mangos.Message) error {
 	p.SendCalls++
 	p.InFlight++
@@ -69,17 +83,17 @@ func (p *Pipe) Send(m *mangos.Message) error {
 	// sends outstanding on one connection
 	verif.Assert(p.InFlight <= 1, "vt/connection-handed-a-second-message-before-the-first-write-returned")
 	if p.Closed {
-		return mangos.ErrClosed
+		return p.goneErr()
 	}
 	switch p.SendMode {
 	case SendBlock:
 		select {
 		case <-p.release:
 		case <-p.closeq:
-			return mangos.ErrClosed
+			return p.goneErr()
 		}
 	case SendFail:
-		return mangos.ErrClosed
+		return p.goneErr()
 	case SendHold:
 		<-p.release
 		if p.Closed {
@@ -175,6 +189,7 @@ var T *Tran
 
 // Install registers a fresh harness transport (per path).
 func Install() *Tran {
+	RawErrors = false
 	T = &Tran{Listeners: map[string]*Listener{}}
 	transport.RegisterTransport(T)
 	return T
